@@ -1,0 +1,104 @@
+//go:build verif
+// +build verif
+
+// Verification hooks (build tag "verif" only): a structural view of the unexported IPP
+// decoder/encoder/handler for the correspondence run of /verif (property C17).
+
+
+package ipp
+
+// VerifAttr is one decoded attribute (ValueType) as plain data.
+type VerifAttr struct {
+	Kind  string // "int" (valInt) | "str" (valStr) | "bool" (valBool) | "range" (valRangeInt)
+	Tag   byte
+	Name  string
+	Ints  []int32
+	Strs  []string
+	Bools []bool
+	Lo    int32
+	Hi    int32
+}
+
+// VerifGroup is one attribGroup.
+type VerifGroup struct {
+	Tag   byte
+	Attrs []VerifAttr
+}
+
+// VerifMsg is an ippMsg (request: Op is the operation id; response: the status code).
+type VerifMsg struct {
+	Major, Minor byte
+	Op           int16
+	RequestID    int32
+	Groups       []VerifGroup
+	Data         []byte
+	URI          string
+	User         string
+	JobName      string
+	Format       string
+}
+
+func verifDump(m *ippMsg) *VerifMsg {
+	out := &VerifMsg{
+		Major: m.versionMajor, Minor: m.versionMinor, Op: m.statusCode, RequestID: m.requestID,
+		Data: m.data, URI: m.uri, User: m.username, JobName: m.jobname, Format: m.format,
+	}
+	for _, g := range m.attributes {
+		vg := VerifGroup{Tag: g.tag}
+		for _, v := range g.val {
+			switch a := v.(type) {
+			case *valInt:
+				vg.Attrs = append(vg.Attrs, VerifAttr{Kind: "int", Tag: a.tag, Name: a.name, Ints: append([]int32(nil), a.val...)})
+			case *valStr:
+				vg.Attrs = append(vg.Attrs, VerifAttr{Kind: "str", Tag: a.tag, Name: a.name, Strs: append([]string(nil), a.val...)})
+			case *valBool:
+				vg.Attrs = append(vg.Attrs, VerifAttr{Kind: "bool", Tag: a.tag, Name: a.name, Bools: append([]bool(nil), a.val...)})
+			case *valRangeInt:
+				vg.Attrs = append(vg.Attrs, VerifAttr{Kind: "range", Tag: a.tag, Name: a.name, Lo: a.low, Hi: a.high})
+			}
+		}
+		out.Groups = append(out.Groups, vg)
+	}
+	return out
+}
+
+// VerifDecode runs ippMsg.decode on raw and returns what it built (also when it
+// reports an error).  Panics of decode propagate to the caller.
+func VerifDecode(raw []byte) (*VerifMsg, error) {
+	m := &ippMsg{}
+	err := m.decode(raw)
+	return verifDump(m), err
+}
+
+// VerifHandler runs ippHandler on raw: the response message as plain data (with the
+// extracted uri/user/jobname/format/data) and its encoding as sent in the HTTP body.
+func VerifHandler(raw []byte) (resp *VerifMsg, encoded []byte, err error) {
+	r, err := ippHandler(raw)
+	if err != nil {
+		return nil, nil, err
+	}
+	return verifDump(r), r.encode().Bytes(), nil
+}
+
+// VerifEncode encodes a message given as plain data with the package's own encoders
+// (valX.encode, attribGroup.encode, ippMsg.encode).
+func VerifEncode(in *VerifMsg) []byte {
+	m := &ippMsg{versionMajor: in.Major, versionMinor: in.Minor, statusCode: in.Op, requestID: in.RequestID}
+	for _, g := range in.Groups {
+		ag := &attribGroup{tag: g.Tag}
+		for _, a := range g.Attrs {
+			switch a.Kind {
+			case "int":
+				ag.val = append(ag.val, &valInt{a.Tag, a.Name, a.Ints})
+			case "str":
+				ag.val = append(ag.val, &valStr{a.Tag, a.Name, a.Strs})
+			case "bool":
+				ag.val = append(ag.val, &valBool{a.Tag, a.Name, a.Bools})
+			case "range":
+				ag.val = append(ag.val, &valRangeInt{a.Tag, a.Name, a.Lo, a.Hi})
+			}
+		}
+		m.attributes = append(m.attributes, ag)
+	}
+	return m.encode().Bytes()
+}
